@@ -22,7 +22,7 @@ M = [
  ("auth-lifetime-12-days", "msmart/lan.py", "AUTHENTICATION_EXPIRATION = timedelta(hours=12)", "AUTHENTICATION_EXPIRATION = timedelta(days=12)", ["C07"]),
  ("lifetime-check-uses-auth", "msmart/lan.py", "        if self._connection_expiration and datetime.now(timezone.utc) > self._connection_expiration:",
   "        if self._connection_expiration and datetime.now(timezone.utc) > self._connection_expiration + timedelta(hours=1):", ["C07"]),
- ("read-timeout-3s", "msmart/lan.py", "    async def _read_queue(self, timeout: int = 2) -> bytes:", "    async def _read_queue(self, timeout: int = 3) -> bytes:", ["C08"]),
+ ("read-timeout-3s", "msmart/lan.py", "        # Await a response\n        packet = await self._protocol.read(**kwargs)", "        # Await a response\n        packet = await self._protocol.read(**({\"timeout\": 3} if not kwargs else kwargs))", ["C08"]),
  ("connect-oserror-unmapped", "msmart/lan.py", "        except OSError as e:\n            raise ProtocolError(\"Connect failed.\") from e\n",
   "        except ConnectionResetError as e:\n            raise ProtocolError(\"Connect failed.\") from e\n", ["C08", "C07"]),
  ("device-auth-timeout-unmapped", "msmart/base_device.py", "        except (ProtocolError, TimeoutError) as e:\n            raise AuthenticationError(e) from e",
@@ -33,9 +33,10 @@ M = [
  ("setstate-eco-mask", "msmart/device/AC/command.py", "        eco = 0x80 if self.eco else 0", "        eco = 0x10 if self.eco else 0", ["C10", "C01"]),
  ("setstate-sleep-turbo-swapped", "msmart/device/AC/command.py", "        sleep = 0x01 if self.sleep else 0\n        turbo = 0x02 if self.turbo else 0",
   "        sleep = 0x02 if self.sleep else 0\n        turbo = 0x01 if self.turbo else 0", ["C10"]),
- ("setstate-alt-temp-range", "msmart/device/AC/command.py", "        if 17 <= integral_temp <= 30:", "        if 17 <= integral_temp <= 31:", ["C10"]),
- ("state-alt-half-degree-lost", "msmart/device/AC/command.py", "            self.target_temperature = target_temperature_alt + 12\n            self.target_temperature += 0.5 if payload[2] & 0x10 else 0.0",
-  "            self.target_temperature = target_temperature_alt + 12.0", ["C11"]),
+ ("setstate-alt-temp-range", "msmart/device/AC/command.py", "        if 17 <= integral_temp <= 30:", "        if 17 <= integral_temp <= 32:", ["C10"]),
+ ("breeze-mild-not-marked", "msmart/device/AC/device.py", "        self._breeze_mode = (AirConditioner.BreezeMode.BREEZE_MILD if enable\n                             else AirConditioner.BreezeMode.OFF)\n\n        self._updated_properties.add(PropertyId.BREEZE_CONTROL)",
+  "        self._breeze_mode = (AirConditioner.BreezeMode.BREEZE_MILD if enable\n                             else AirConditioner.BreezeMode.OFF)\n\n        if enable:\n            self._updated_properties.add(PropertyId.BREEZE_CONTROL)", ["C16"]),
+ ("rate-select-readback-default", "msmart/device/AC/device.py", "                    AirConditioner.RateSelect.get_from_value(rate))", "                    AirConditioner.RateSelect.get_from_value(rate if rate != 1 else 100))", ["C16"]),
  ("state-negative-tenths", "msmart/device/AC/command.py", "            return int(temperature) + (decimals if temperature >= 0 else -decimals)",
   "            return int(temperature) + decimals", ["C11"]),
  ("message-id-not-masked", "msmart/device/AC/command.py", "        return Command._message_id & 0xFF", "        return Command._message_id % 0xFF", ["C12"]),
@@ -46,15 +47,15 @@ M = [
   "                # Advanced to next capability\n                caps = caps[4+size:] if size > 1 else caps[3+size:]\n                continue", ["C15"]),
  ("additional-caps-overwrite", "msmart/device/AC/command.py", "        self._capabilities.update(other._capabilities)", "        self._capabilities = {**other._capabilities, **self._capabilities}", ["C15"]),
  ("updated-properties-not-cleared", "msmart/device/AC/device.py", "        # Reset updated properties set\n        self._updated_properties.clear()", "        # Reset updated properties set", ["C16"]),
- ("breezeless-wrong-legacy-id", "msmart/device/AC/device.py", "            else PropertyId.BREEZELESS)", "            else PropertyId.BREEZE_AWAY)", ["C16"]),
- ("ieco-encode-switch-offset", "msmart/device/AC/command.py", "            return bytes([0, 1, args[0]]) + bytes(10)", "            return bytes([0, args[0], 1]) + bytes(10)", ["C16"]),
  ("discovery-dedup-removed", "msmart/discover.py", "        if ip in self._discovered_ips:\n            return\n", "        if ip in self._discovered_ips and False:\n            return\n", ["C18"]),
  ("discovery-dedup-by-addr", "msmart/discover.py", "        if ip in self._discovered_ips:\n            return\n\n        self._discovered_ips.add(ip)",
   "        if addr in self._discovered_ips:\n            return\n\n        self._discovered_ips.add(addr)", ["C18"]),
  ("discovery-reported-ip", "msmart/discover.py", 'return {"ip": ip, "port": port,', 'return {"ip": ip_address, "port": port,', ["C17"]),
  ("discovery-type-decimal", "msmart/discover.py", 'device_type = int(name.split("_")[1], 16)', 'device_type = int(name.split("_")[1].lower(), 16) if not name.split("_")[1].isdigit() else int(name.split("_")[1])', ["C17"]),
  ("token-first-entry", "msmart/cloud.py", '            if token["udpId"] == udpid:', '            if token["udpId"].startswith(udpid[:30]):', ["C19"]),
- ("cloud-sign-unsorted", "msmart/cloud.py", "            query = unquote_plus(urlencode(sorted(data.items())))", "            query = unquote_plus(urlencode(sorted(data.items(), key=lambda kv: kv[0].lower())))", ["C19"]),
+ ("cloud-sign-quoted-query", "msmart/cloud.py", "            query = unquote_plus(urlencode(sorted(data.items())))", "            query = urlencode(sorted(data.items()))", ["C19"]),
+ ("cloud-password-hash-order", "msmart/cloud.py", "            login_hash = login_id + m1.hexdigest() + self.APP_KEY\n            m2 = hashlib.sha256(login_hash.encode(\"ASCII\"))\n\n            return m2.hexdigest()\n",
+  "            login_hash = m1.hexdigest() + login_id + self.APP_KEY\n            m2 = hashlib.sha256(login_hash.encode(\"ASCII\"))\n\n            return m2.hexdigest()\n", ["C19"]),
  ("cli-bool-of-string", "msmart/cli.py", "            new_properties[name] = convert(value.capitalize(), bool)", "            new_properties[name] = bool(value)", ["C20"]),
  ("cli-enum-name-case", "msmart/cli.py", "                    new_properties[name] = attr_type[value.upper()]", "                    new_properties[name] = attr_type[value.upper() if value.islower() else value]", ["C20"]),
 ]
